@@ -194,6 +194,19 @@ Theorem callback_steepest_descent :
 Proof. exact sd_callbacks. Qed.
 Print Assumptions callback_steepest_descent.
 
+(* douglas_rachford_pd calls back with p1 and, in its last iteration, copies p1
+   into x and returns: niter callbacks; the k-th one is what a run with
+   niter = k+1 returns in x; the last one is the returned x.  (Any number of
+   operators, optional l, relaxation lam(k).) *)
+Theorem callback_douglas_rachford :
+  forall (proxf : list R -> list R) (tau : R) (lam : nat -> R) (ops : list (@drop R)) (niter : nat) (x : list R),
+  length (dr_trace proxf tau lam ops niter 0 (dr_init ops x)) = niter
+  /\ (forall k, (k < niter)%nat ->
+        nth k (dr_trace proxf tau lam ops niter 0 (dr_init ops x)) [] = dr_run proxf tau lam ops (S k) x)
+  /\ dr_run proxf tau lam ops niter x = last (dr_trace proxf tau lam ops niter 0 (dr_init ops x)) x.
+Proof. exact dr_callbacks. Qed.
+Print Assumptions callback_douglas_rachford.
+
 (* =========== 4. the programs REGENERATED from the source (Gen/Solvers.v) ===========
    [run_prog I pre body n s0]: the heap-level interpreter (C11/Interp.v) runs the
    translated preamble and n times the translated loop body; names are bound to
